@@ -165,6 +165,9 @@ def apply_tags(kind, obj, rng, sizeclass):
             t.add(PRIV(owner="o" + MARK, data=blob(rng, "tiny") + b"\x01"))
         else:
             t.add(POPM(email="a@b", rating=rng.randrange(256), count=rng.choice([0, 1, 2 ** 32 - 1, 2 ** 40])))
+        if rng.random() < 0.25:
+            # recording time at every precision (v2.3 carries it as TYER + TDAT + TIME)
+            t.add(TDRC(encoding=rng.choice([0, 3]), text=[rng.choice(["2001", "1999-12", "2001-05-17", "2001-05-17 10", "2001-05-17 10:20", "2001-05-17 10:20:33"])]))
     elif st == "ape":
         from mutagen.apev2 import APEValue, TEXT, BINARY, EXTERNAL
         k = rng.choice(["Title", "ARTIST", "Album", "My Key"])
@@ -283,6 +286,8 @@ def expected_indep(kind, obj, v2_version=4):
             n = type(f).__name__
             if n[0] == "T" and n != "TXXX" and hasattr(f, "text"):
                 txt = [str(x) for x in f.text]
+                if n in ("TDRC", "TDOR", "TDRL", "TDEN", "TDTG"):
+                    txt = [x.replace(" ", "T") for x in txt]     # ISO 8601 subset on the wire
                 if not "".join(txt) and all(x == "" for x in txt):
                     continue       # empty text frames are not written (documented canonical form)
                 out.append(("T", n, txt))
@@ -364,6 +369,8 @@ def indep_decode(kind, w):
         out = []
         for name, sub in t:
             datas = [b for n, b in sub if n == b"data"]
+            if not datas:
+                continue        # an item without a data child carries no value (kept verbatim: C07's subject)
             if name == b"----":
                 mean = [b[4:] for n, b in sub if n == b"mean"][0]
                 nm = [b[4:] for n, b in sub if n == b"name"][0]
